@@ -403,7 +403,9 @@ impl State {
     pub(crate) fn log(&mut self, tid: usize, kind: Ev) {
         let seq = self.events.len() as u32;
         let vc = self.threads[tid].vc;
-        let e = Event { seq, tid: tid as u8, vt: self.clock.now, kind, vc };
+        // `log` always runs on the thread that performs the operation.
+        let unwinding = std::thread::panicking();
+        let e = Event { seq, tid: tid as u8, vt: self.clock.now, kind, vc, unwinding };
         if self.trace {
             eprintln!("EV {seq} t{tid} {kind:?}");
         }
